@@ -22,6 +22,9 @@ pub enum Sym {
 /// increase and every element is later than the last watermark.
 pub fn histories(keys: i64, tmax: i64, len: usize, f: &mut dyn FnMut(&[Sym])) {
     fn rec(keys: i64, tmax: i64, len: usize, cur: &mut Vec<Sym>, wm: Option<i64>, f: &mut dyn FnMut(&[Sym])) {
+        if crate::e2::out_of_time() {
+            return;
+        }
         f(cur);
         if cur.len() == len {
             return;
